@@ -1,0 +1,41 @@
+package ecs
+
+import (
+	"reflect"
+	"unsafe"
+)
+
+// copyTyped copies a value of the given type with write barriers.
+//
+// Required for component types that contain pointers: a raw byte copy hides the moved pointers from a
+// concurrently running garbage collector, which may then free objects that are still referenced.
+func copyTyped(tp reflect.Type, src, dst unsafe.Pointer) {
+	reflect.NewAt(tp, dst).Elem().Set(reflect.NewAt(tp, src).Elem())
+}
+
+// zeroTyped zeroes a value of the given type with write barriers.
+func zeroTyped(tp reflect.Type, dst unsafe.Pointer) {
+	reflect.NewAt(tp, dst).Elem().SetZero()
+}
+
+// hasPointers reports whether values of the given type contain pointers.
+func hasPointers(tp reflect.Type) bool {
+	switch tp.Kind() {
+	case reflect.Bool,
+		reflect.Int, reflect.Int8, reflect.Int16, reflect.Int32, reflect.Int64,
+		reflect.Uint, reflect.Uint8, reflect.Uint16, reflect.Uint32, reflect.Uint64, reflect.Uintptr,
+		reflect.Float32, reflect.Float64, reflect.Complex64, reflect.Complex128:
+		return false
+	case reflect.Array:
+		return tp.Len() > 0 && hasPointers(tp.Elem())
+	case reflect.Struct:
+		for i := 0; i < tp.NumField(); i++ {
+			if hasPointers(tp.Field(i).Type) {
+				return true
+			}
+		}
+		return false
+	default:
+		return true
+	}
+}
